@@ -231,7 +231,7 @@ def check_trace_acd(case, res, rep, lean_drive):
 
 
 def check_ctl_acd(case, res, rep, ctl):
-    tr = [(k, e) for k, e in res["trace"] if k != "anderson"]
+    tr = [(k, e) for k, e in res["trace"] if k in ("head", "ws", "epoch", "intercept", "extrap", "inner", "obj")]
     K = case.knobs
     fi = case.fit_intercept
     tol = K.get("tol", 1e-4)
